@@ -12,7 +12,8 @@ map keys sorted as `encoding/json` sorts them, `[]byte` as a base64 string, `net
 quad; any other length is a marshal error: nothing is published), the MAC and address *strings* as
 `fmt.Sprintf` / `net.IP.String` produce them (address strings pass through `encoding/json`'s string
 escaping, which is the identity on address text), numbers as their decimal text, `null` for absent
-layers.  `ColTime` is rendered as 0 (the harness zeroes it on the Go side).
+layers, the members of an embedded struct pointer (`sflow.RawHeader` embeds `*packet.Packet`, F33) promoted into the
+enclosing object behind its own fields and left out altogether when the pointer is nil.  `ColTime` is rendered as 0 (the harness zeroes it on the Go side).
 
 That this rendering equals what `encoding/json` (library code) emits is established by the
 correspondence (kinds `sflow`, `sflowf`, `dissect`), not proved; what is proved
